@@ -439,7 +439,7 @@ PROPS = {
         # (generator, quick n, thorough n); the exact O(n*m) oracle costs about 0.3 s per line on average
         "generators": [("c07", 1600, 24000), ("c07walk", 320, 8000)],
         "translators": ["translator_c09", "translator_c07"],
-        "modules": ["S2.Generated.RelateFns", "S2.Relate", "S2.RelateWalk", "S2.Nesting", "S2.Pred", "S2.Exact"],
+        "modules": ["S2.Generated.RelateFns", "S2.Relate", "S2.RelateWalk", "S2.RelateWalkHyps", "S2.Nesting", "S2.Pred", "S2.Exact"],
         "rule": "rel: pairs of valid loops — concentric regular polygons (the D1 shape: both sides with multi-cell indexes and edge-free "
                 "interior cells), nearly equal radii, star-shaped random loops at every distance (disjoint / crossing / nested), "
                 "one or both larger than a hemisphere, B = every s-th vertex of A (1..n shared vertices), B = a chain of A closed by a chord "
